@@ -192,20 +192,39 @@ func C12() *sim.Check {
 			c.St.Inc("multicall_not_applicable")
 			return nil
 		}
-		one := runPS(newInterp(psSafetyBudget), p.Src, gen.RefSchedule(), nil, sim.Fault{}, nil)
+		src := p.Src
+		gaps := p.Gaps
+		// with the %! start check enabled the equivalence must hold as well (the
+		// check is made once, on the first call)
+		checkStart := t.Bool(1, 3)
+		if checkStart {
+			hdr := []string{"%!\n", "%!PS-Adobe-3.0\n"}[t.Choose(2)]
+			src = append([]byte(hdr), src...)
+			gaps = make([]int, len(p.Gaps))
+			for i, g := range p.Gaps {
+				gaps[i] = g + len(hdr)
+			}
+			c.St.Inc("multicall_with_start_check")
+		}
+		mk := func() *postscript.Interpreter {
+			in := newInterp(psSafetyBudget)
+			in.CheckStart = checkStart
+			return in
+		}
+		one := runPS(mk(), src, gen.RefSchedule(), nil, sim.Fault{}, nil)
 		k := 1 + t.Choose(4)
 		var cuts []int
 		for i := 0; i < k; i++ {
-			cuts = append(cuts, sim.Pick(t, p.Gaps))
+			cuts = append(cuts, sim.Pick(t, gaps))
 		}
 		sch := sim.Schedule{Mode: sim.ChunkAll}
 		if t.Bool(1, 3) {
-			sch = gen.GenSchedule(t, len(p.Src), false)
+			sch = gen.GenSchedule(t, len(src), false)
 			if sch.Mode == sim.ChunkRandom {
 				sch.Mode, sch.K = sim.ChunkFixed, 3
 			}
 		}
-		many := runPS(newInterp(psSafetyBudget), p.Src, sch, cuts, sim.Fault{}, nil)
+		many := runPS(mk(), src, sch, cuts, sim.Fault{}, nil)
 		dmp := dump.Interp
 		if one.Err != nil {
 			// Execute appends a call's DSC comments only when the call succeeds:
@@ -215,12 +234,12 @@ func C12() *sim.Check {
 		a, b := dump.Err(one.Err)+"\n"+dmp(one.In), dump.Err(many.Err)+"\n"+dmp(many.In)
 		c.St.Inc("multicall_histories")
 		if many.Calls > 1 {
-			c.St.Case(sim.Mix(sim.HashBytes(p.Src), "calls", many.Print))
+			c.St.Case(sim.Mix(sim.HashBytes(src), "calls", many.Print))
 		}
 		// was a cut inside an open procedure body?
 		for _, cut := range cuts {
 			depth := 0
-			for _, ch := range p.Src[:min(cut, len(p.Src))] {
+			for _, ch := range src[:min(cut, len(src))] {
 				if ch == '{' {
 					depth++
 				} else if ch == '}' {
@@ -235,7 +254,7 @@ func C12() *sim.Check {
 			out := &sim.Outcome{Class: "call-split-dependent", Key: "deliver:multicall",
 				Detail: fmt.Sprintf("feeding the program in %d calls (cuts %v) differs from one call: %s", many.Calls, cuts, firstDiff(b, a))}
 			if c.Explain {
-				out.Human = map[string]any{"program": printable(p.Src), "cuts": cuts, "pieces": pieces(p.Src, cuts), "schedule": sch.String(), "one_call": clipS(a, 500), "several_calls": clipS(b, 500)}
+				out.Human = map[string]any{"program": printable(src), "start_check": checkStart, "cuts": cuts, "pieces": pieces(src, cuts), "schedule": sch.String(), "one_call": clipS(a, 500), "several_calls": clipS(b, 500)}
 			}
 			return out
 		}
